@@ -111,7 +111,7 @@ CHECKS = {
     "C20": {
         "worlds": [
             {"name": "ctx", "variants": {"quick": ["cov", "ship"], "thorough": ["cov", "ship", "alt", "asan"]},
-             "runs": {"quick": 1200, "thorough": 40000}, "secondary_share": 0.25},
+             "runs": {"quick": 6000, "thorough": 150000}, "secondary_share": 0.25, "cross_variant": True},
         ],
         "rule": "one run = one seeded Plan: context-lifecycle history + static-context pass + rounds of 2..16 fibers on one shared context "
                 "pre-empted at seeded basic-block edges; non-trivial = at least one fault/pre-emption/writer op fired and an output comparison "
